@@ -350,6 +350,27 @@ PROPS = {
                       'sets up to 5000 points for the shipped leaf size',
         'level_note': 'sets larger than 5 points are structured, not exhaustive',
     },
+    'C09': {
+        'sources': ['src/pointset/algorithms/NormalAndCurvatureEstimation.cpp', 'src/pointset/KdTree.cpp'],
+        'harness': 'c09_normals.cpp',
+        'flavour': 'plain',
+        'level': 'exploration',
+        'engine': 'lattice',
+        'rule': 'full lattice point type (8) x cloud catalogue (planes / lines on both sides of every axis at distances '
+                '0.5, 2, 50, tilted, two surfaces meeting, curved, rippled, k+1-point and ~2000-point clouds) x k in '
+                '{3,5,10,20,30} x rotation about the origin x output-normal initialisation (zero / default-constructed), all '
+                'six overloads; one evaluation = one point of one cloud checked. non-trivial = point whose neighbourhood '
+                'has relative eigen-gap > 1e-6, conditioning bound <= 0.05 and no k/(k+1) distance tie (others are counted '
+                'in trivial_skipped for the direction clause only; unit length, orientation and curvature range are '
+                'checked for every point).',
+        'assumptions': ['direction tolerance 16 eps (1+R/s)^2/gap with R the coordinate magnitude and s the neighbourhood spread (two-pass covariance in the scalar type)'],
+        'tiers': {'quick': {'deadline': 400, 'case_timeout': 120}, 'thorough': {'deadline': 3000, 'case_timeout': 600}},
+        'technique': 'bounded-exhaustive configuration lattice on the real code; PCA reference in long double on the implementation own neighbourhoods, analytic normals for planar clouds, rotation differential oracle',
+        'level_text': 'complete enumeration of the cloud / k / type / rotation / output-initialisation lattice with every '
+                      'clause of the property decided per point (unit length, sensor-facing, least-variance direction, '
+                      'exact planar normal, curvature range, equivariance)',
+        'level_note': 'catalogue clouds only',
+    },
 }
 
 ENGINES = [
